@@ -830,6 +830,8 @@ func genConfig(rng *Rng, nAddrs, nLegacy int, idc *int) cfgFile {
 			k := genKey(rng, idc)
 			if j > 0 && rng.Chance(30) { // same cipher+secret again under another ID
 				k.Cipher, k.Secret = s.Keys[0].Cipher, s.Keys[0].Secret
+			} else if j > 0 && rng.Chance(25) { // another key under an ID the service already uses (IDs need not be unique)
+				k.ID = s.Keys[0].ID
 			}
 			s.Keys = append(s.Keys, k)
 		}
@@ -859,7 +861,7 @@ func injectFault(rng *Rng, f *cfgFile, nAddrs int, idc *int, cur map[lkey]bool) 
 		return &f.Svcs[rng.Intn(len(f.Svcs))]
 	}
 	// every kind of fault comes up in turn (a run of a dozen histories sees each several times)
-	kind := int(atomic.AddInt64(&faultTurn, 1)+int64(rng.Intn(2))) % 8
+	kind := int(atomic.AddInt64(&faultTurn, 1)) % 8
 	switch kind {
 	case 0:
 		*f = cfgFile{Kind: 1, Fault: "unreadable"}
